@@ -184,7 +184,7 @@ func cmdCheck(args []string) int {
 	solvers := map[string]bool{}
 	for _, r := range results {
 		for _, o := range r.Obls {
-			entry := map[string]any{"name": o.Name, "kind": o.Kind, "status": o.Status, "solver": o.Solver, "solver_time_s": round3(o.Time), "paths": o.Paths, "unit": o.Unit}
+			entry := map[string]any{"name": o.Name, "kind": o.Kind, "status": o.Status, "solver": o.Solver, "solver_time_s": round3(o.Time), "max_query_s": round3(o.MaxQuery), "paths": o.Paths, "unit": o.Unit}
 			if o.Src != "" {
 				entry["clause"] = o.Src
 			}
